@@ -132,10 +132,11 @@ func (g *Gen) initValue(fc *fnCtx, gl *ssa.Global, st *State) (res Val, ok bool)
 		return Val{}, false
 	}
 	et := gl.Type().Underlying().(*types.Pointer).Elem()
+	// only the variable's own value is constant; whatever it points to is read from the heap as usual
 	switch et.Underlying().(type) {
-	case *types.Array, *types.Basic, *types.Struct:
+	case *types.Array, *types.Basic, *types.Struct, *types.Pointer, *types.Interface:
 	default:
-		return Val{}, false // maps, slices, pointers: content may be mutated through aliases
+		return Val{}, false
 	}
 	blk := stores[0].Block()
 	need := map[ssa.Instruction]bool{}
